@@ -44,11 +44,13 @@ ProjFeat(fj, ids) ==
       ps == IF ok THEN Parts(fj.loc) ELSE <<>>
   IN [ label |-> fj.label, key |-> fj.key, props |-> fj.props, loc |-> fj.loc, wf |-> ok,
        parts |-> [j \in 1..Len(ps) |-> MapDen(ps[j].den, ids)],
+       amb   |-> [j \in 1..Len(ps) |-> ps[j].amb],
        f5    |-> IF ok THEN F5(fj.loc) ELSE FALSE,
        f3    |-> IF ok THEN F3(fj.loc) ELSE FALSE,
        gaps  |-> IF ok THEN Sites(fj.loc) ELSE {} ]
 
 FDen(f) == FlatSeq(f.parts)
+HasAmb(f) == \E j \in 1..Len(f.amb) : f.amb[j]
 FSet(f) == SeqToSet(FDen(f))
 FIds(f) == {x[1] : x \in FSet(f)}
 
@@ -106,6 +108,7 @@ Once(O, labs) == UNION {If(Len(FeatsWith(O, lab)) # 1, V("once", lab)) : lab \in
 The(O, lab) == FeatsWith(O, lab)[1]
 
 AllWF(O) == UNION {If(~O.feats[j].wf, V("wf", O.feats[j].label)) : j \in 1..Len(O.feats)}
+AllWFx(O, skip) == {v \in AllWF(O) : v[2] \notin skip}
 
 \* table order: source features first, then no adjacent inversion under Less
 OrderOK(O) ==
@@ -120,9 +123,14 @@ OrderOK(O) ==
 \* post gaps after; surv: surviving identities; cut: gap of the cut (or -1)
 SiteRule(f, o, preIds, postIds, surv, cut, wrap) ==
   LET preAdj  == {Adj(g, preIds, wrap) : g \in f.gaps}
+      postAll == {Adj(g, postIds, wrap) : g \in 0..Len(postIds)}
       postAdj == {Adj(g, postIds, wrap) : g \in o.gaps}
+      survX == surv \cup {0}     \* the ends of a linear sequence always "survive"
       okFor(a) ==
-        IF a[1] \in surv \/ a[2] \in surv
+        IF a[1] \in survX /\ a[2] \in survX /\ a \notin postAll
+        THEN \* something was inserted between the two neighbours: either side
+             \E b \in postAdj : b[1] = a[1] \/ b[2] = a[2]
+        ELSE IF a[1] \in surv \/ a[2] \in surv
         THEN \E b \in postAdj : (a[1] \in surv => b[1] = a[1]) /\ (a[2] \in surv => b[2] = a[2])
         ELSE IF a[1] = 0 /\ a[2] = 0 THEN TRUE
         ELSE cut < 0 \/ cut \in o.gaps \/ (a[1] = 0 \/ a[2] = 0)
@@ -139,9 +147,10 @@ FlagRule(f, o, surv) ==
       last3  == Pk[Len(Pk)][1]
       p1surv == \E j \in 1..Len(P1) : P1[j][1] \in surv
       pksurv == \E j \in 1..Len(Pk) : Pk[j][1] \in surv
-  IN If((first5 \in surv /\ o.f5 # f.f5) \/ (first5 \notin surv /\ p1surv /\ ~o.f5), V("flag5", f.label))
+  IN \* an ambiguous span cannot carry a marker
+     If((first5 \in surv /\ o.f5 # f.f5) \/ (first5 \notin surv /\ p1surv /\ ~o.f5 /\ ~f.amb[1]), V("flag5", f.label))
      \cup
-     If((last3 \in surv /\ o.f3 # f.f3) \/ (last3 \notin surv /\ pksurv /\ ~o.f3), V("flag3", f.label))
+     If((last3 \in surv /\ o.f3 # f.f3) \/ (last3 \notin surv /\ pksurv /\ ~o.f3 /\ ~f.amb[Len(f.parts)]), V("flag3", f.label))
 
 FilterDen(d, surv) == SelectSeq(d, LAMBDA x : x[1] \in surv)
 
@@ -200,8 +209,8 @@ JudgeInsert(H, G, O, i, embed) ==
      \cup AllWF(O)
      \cup once
      \cup (IF once # {} THEN {} ELSE
-             UNION {hostRule(H.feats[j]) : j \in 1..Len(H.feats)}
-             \cup UNION {guestRule(G.feats[j]) : j \in 1..Len(G.feats)})
+             UNION {IF H.feats[j].wf THEN hostRule(H.feats[j]) ELSE {} : j \in 1..Len(H.feats)}
+             \cup UNION {IF G.feats[j].wf THEN guestRule(G.feats[j]) ELSE {} : j \in 1..Len(G.feats)})
      \cup OrderOK(O)
 
 (***************************************************************************)
@@ -233,7 +242,7 @@ JudgeDelete(S, O, i, n, erase) ==
   IN ResRule(O, ids2, byt2)
      \cup AllWF(O)
      \cup If(\E j \in 1..Len(O.feats) : O.feats[j].label \notin Labels(S), V("count", "-"))
-     \cup UNION {rule(S.feats[j]) : j \in 1..Len(S.feats)}
+     \cup UNION {IF S.feats[j].wf THEN rule(S.feats[j]) ELSE {} : j \in 1..Len(S.feats)}
 
 IsFullLength(f, R) == Len(FDen(f)) = Len(R.ids) /\ FIds(f) = SeqToSet(R.ids) /\ Len(R.ids) > 0
 
@@ -245,13 +254,21 @@ JudgeSlice(S, O, a, b) ==
       ids2 == Window(S.ids, a, b)
       byt2 == Window(S.byt, a, b)
       surv == SeqToSet(ids2)
+      \* a wrap-around slice is defined through Rotate: same exemption
+      skip == {S.feats[j].label : j \in {q \in 1..Len(S.feats) : wrap /\ AmCrosses(S.feats[q].loc, L - a1, L)}}
       rule(f) ==
         LET n1 == Len(FeatsWith(O, f.label))
             want == FilterDen(FDen(f), surv)
-        IN IF FDen(f) = <<>> THEN
+        IN IF f.label \in skip THEN {} ELSE
+           IF FDen(f) = <<>> THEN
              (IF n1 = 0 THEN {} ELSE IF n1 # 1 THEN V("once", f.label)
               ELSE SameMeta(f, The(O, f.label)) \cup SiteRule(f, The(O, f.label), S.ids, ids2, surv, -1, FALSE))
-           ELSE IF want = <<>> THEN If(n1 # 0, V("dropped", f.label))
+           ELSE IF want = <<>> THEN
+             \* nothing of it is left: dropped, unless one of its zero-length
+             \* sites lies inside the window (then either, but with no residues)
+             (IF f.gaps = {} THEN If(n1 # 0, V("dropped", f.label))
+              ELSE IF n1 = 0 THEN {} ELSE IF n1 # 1 THEN V("once", f.label)
+              ELSE If(FDen(The(O, f.label)) # <<>>, V("den", f.label)))
            ELSE IF n1 # 1 THEN V("once", f.label)
            ELSE IF wrap /\ IsFullLength(f, S)
                 THEN SameMeta(f, The(O, f.label))
@@ -259,10 +276,10 @@ JudgeSlice(S, O, a, b) ==
                              /\ FDen(The(O, f.label)) # want, V("den", f.label))
            ELSE RemovedRule(f, The(O, f.label), S.ids, ids2, surv, -1, f.key = "source")
   IN ResRule(O, ids2, byt2)
-     \cup AllWF(O)
+     \cup AllWFx(O, skip)
      \cup If(O.topo \notin {"linear", "na"}, V("topo", "-"))
      \cup If(\E j \in 1..Len(O.feats) : O.feats[j].label \notin Labels(S), V("count", "-"))
-     \cup UNION {rule(S.feats[j]) : j \in 1..Len(S.feats)}
+     \cup UNION {IF S.feats[j].wf THEN rule(S.feats[j]) ELSE {} : j \in 1..Len(S.feats)}
 
 (***************************************************************************)
 (* Rotate / Reverse / Complement / Transcribe / Concat                     *)
@@ -271,21 +288,26 @@ JudgeRotate(S, O, n) ==
   LET ids2 == Rot(S.ids, n)
       byt2 == Rot(S.byt, n)
       all  == SeqToSet(S.ids)
+      L    == Len(S.ids)
+      m    == IF L = 0 THEN 0 ELSE ((n % L) + L) % L
+      \* C04 quantifies over ambiguous spans only when they do not cross the new origin
+      skip == {S.feats[j].label : j \in {q \in 1..Len(S.feats) : L > 0 /\ AmCrosses(S.feats[q].loc, m, L)}}
       rule(f) ==
         LET o == The(O, f.label) IN
+        IF f.label \in skip THEN {} ELSE
         SameMeta(f, o)
         \cup (IF FDen(f) = <<>>
               THEN SiteRule(f, o, S.ids, ids2, all, -1, TRUE)
-              ELSE IF IsFullLength(f, S) /\ Len(f.parts) = 1
+              ELSE IF IsFullLength(f, S)
                    THEN If(~IsCyclicShift(FDen(f), FDen(o)), V("den", f.label))
                    ELSE If(FDen(o) # FDen(f), V("den", f.label))
                         \cup If(o.f5 # f.f5, V("flag5", f.label)) \cup If(o.f3 # f.f3, V("flag3", f.label)))
       once == Once(O, Labels(S))
   IN ResRule(O, ids2, byt2)
-     \cup AllWF(O)
+     \cup AllWFx(O, skip)
      \cup If(Len(O.feats) # Len(S.feats), V("count", "-"))
      \cup once
-     \cup (IF once # {} THEN {} ELSE UNION {rule(S.feats[j]) : j \in 1..Len(S.feats)})
+     \cup (IF once # {} THEN {} ELSE UNION {IF S.feats[j].wf THEN rule(S.feats[j]) ELSE {} : j \in 1..Len(S.feats)})
      \cup OrderOK(O)
 
 JudgeReverse(S, O) ==
@@ -307,7 +329,7 @@ JudgeReverse(S, O) ==
      \cup AllWF(O)
      \cup If(Len(O.feats) # Len(S.feats), V("count", "-"))
      \cup once
-     \cup (IF once # {} THEN {} ELSE UNION {rule(S.feats[j]) : j \in 1..Len(S.feats)})
+     \cup (IF once # {} THEN {} ELSE UNION {IF S.feats[j].wf THEN rule(S.feats[j]) ELSE {} : j \in 1..Len(S.feats)})
      \cup OrderOK(O)
 
 JudgeComplement(S, O) ==
@@ -324,7 +346,7 @@ JudgeComplement(S, O) ==
      \cup AllWF(O)
      \cup If(Len(O.feats) # Len(S.feats), V("count", "-"))
      \cup once
-     \cup (IF once # {} THEN {} ELSE UNION {rule(S.feats[j]) : j \in 1..Len(S.feats)})
+     \cup (IF once # {} THEN {} ELSE UNION {IF S.feats[j].wf THEN rule(S.feats[j]) ELSE {} : j \in 1..Len(S.feats)})
 
 JudgeTranscribe(S, O) ==
   LET byt2 == [j \in 1..Len(S.byt) |-> TransOf(S.byt[j])]
@@ -361,16 +383,16 @@ LawRestored(A, B) ==
                LET f == A.feats[j]  o == The(B, f.label) IN
                If(FDen(o) # FDen(f), V("law-den", f.label))
                \cup If(FDen(f) # <<>> /\ (o.f5 # f.f5 \/ o.f3 # f.f3), V("law-flag", f.label))
-               \cup If(FDen(f) # <<>> /\ Len(o.parts) # Len(f.parts), V("law-parts", f.label))
+               \cup If(FDen(f) # <<>> /\ ~HasAmb(f) /\ Len(o.parts) > Len(f.parts), V("law-parts", f.label))
              : j \in 1..Len(A.feats)}
 
 \* the same, up to re-origin (cyclic den for full-length features)
 LawSameMeaning(A, B) ==
   If(A.ids # B.ids \/ A.byt # B.byt, V("law-res", "-"))
   \cup Once(B, Labels(A))
-  \cup UNION {IF Len(FeatsWith(B, A.feats[j].label)) # 1 THEN {} ELSE
+  \cup UNION {IF Len(FeatsWith(B, A.feats[j].label)) # 1 \/ HasAmb(A.feats[j]) \/ ~A.feats[j].wf THEN {} ELSE
                LET f == A.feats[j]  o == The(B, f.label) IN
-               IF IsFullLength(f, A) /\ Len(f.parts) = 1
+               IF IsFullLength(f, A)
                THEN If(~IsCyclicShift(FDen(f), FDen(o)), V("law-den", f.label))
                ELSE If(FDen(o) # FDen(f), V("law-den", f.label))
                     \cup If(FDen(f) # <<>> /\ (o.f5 # f.f5 \/ o.f3 # f.f3), V("law-flag", f.label))
@@ -386,23 +408,27 @@ LawPieces(A, B) ==
               IN If(SeqToSet(all) # FSet(f) \/ Len(all) # Len(FDen(f)), V("law-pieces", f.label))
              : j \in 1..Len(A.feats)}
 
-\* every feature extracts the same bytes from B as from A (reverse-complement)
+\* bytes that extracting feature f from record R yields, by the denotation
+ExtOf(R, f) ==
+  LET d == FDen(f)
+      pos(id) == CHOOSE q \in 1..Len(R.ids) : R.ids[q] = id
+  IN [q \in 1..Len(d) |-> IF d[q][2] = 1 THEN R.byt[pos(d[q][1])] ELSE CompOf(R.byt[pos(d[q][1])])]
+
+\* every feature extracts the same bytes from B as from A (reverse-complement);
+\* that the real extraction equals ExtOf is checked at every step (ExtractRule)
 LawSameExtract(A, B) ==
-  UNION {LET f == A.raw.feats[j]
-             ps == SelectSeq(B.raw.feats, LAMBDA o : o.label = f.label)
-         IN If(Len(ps) # 1 \/ (Len(ps) = 1 /\ (~f.extok \/ ~ps[1].extok \/ ps[1].ext # f.ext)), V("law-extract", f.label))
-        : j \in 1..Len(A.raw.feats)}
+  Once(B, Labels(A))
+  \cup UNION {IF Len(FeatsWith(B, A.feats[j].label)) # 1 \/ ~A.feats[j].wf THEN {} ELSE
+              LET f == A.feats[j]  o == The(B, f.label) IN
+              If(~o.wf \/ ExtOf(B, o) # ExtOf(A, f), V("law-extract", f.label))
+             : j \in 1..Len(A.feats)}
 
 (***************************************************************************)
 (* Extraction (Region/Locate) agrees with the denotation (C05, C08)        *)
 (***************************************************************************)
 ExtractRule(R) ==
   UNION {LET fj == R.raw.feats[j]  f == R.feats[j] IN
-         IF ~f.wf THEN {} ELSE
-         LET d == FDen(f)
-             pos(id) == CHOOSE q \in 1..Len(R.ids) : R.ids[q] = id
-             want == [q \in 1..Len(d) |-> IF d[q][2] = 1 THEN R.byt[pos(d[q][1])] ELSE CompOf(R.byt[pos(d[q][1])])]
-         IN If(~fj.extok \/ fj.ext # want, V("extract", fj.label))
+         IF ~f.wf THEN {} ELSE If(~fj.extok \/ fj.ext # ExtOf(R, f), V("extract", fj.label))
         : j \in 1..Len(R.feats)}
 
 =============================================================================
